@@ -75,6 +75,9 @@ def runCase : CaseFn := fun c => Id.run do
   let mut obs : List (Nat × Obs) := []
   let mut fastLive : List Nat := []      -- free mode: subscribers that must be complete at `settle`
   let mut diverged := false
+  -- an open registration window: (id, height, backlog snapshot) and what the source emitted since
+  let mut win : Option (Nat × Nat × List Ntfn) := none
+  let mut winQ : List Ntfn := []
   for (ln, line) in c.lines do
     let (op, ob) := splitObs line
     let ws := words op
@@ -100,6 +103,37 @@ def runCase : CaseFn := fun c => Id.run do
           let m := match o with | .ok => s!"ok {h}" | .stopped => "stopped" | _ => "invalid"
           if m != ob then
             out := out.push (diff s!"model=<{m}>"); diverged := true
+    | "subbegin" :: i :: h :: rest =>
+      -- NewSubscription(h) is running and is parked inside the source's backlog lookup, which has
+      -- taken its snapshot `bl`.  The model's handler is inside its (atomic) `subscribe` step: nothing
+      -- happens in the model until `subend`; what the source emits meanwhile queues up in `src`.
+      match listAndTail rest with
+      | none => out := out.push (diff "unparsable backlog")
+      | some (bl, _) =>
+        if ob == "parked" then
+          win := some (nat! i, nat! h, bl); winQ := []
+        else if ob == "HANG" then out := out.push (fail "hang" "NewSubscription neither reached the backlog lookup nor returned")
+        else if det && !diverged then
+          out := out.push (diff "model=<parked>"); diverged := true
+    | ["subend", i] =>
+      match win with
+      | none => out := out.push (diff "no registration in progress")
+      | some (wi, h, bl) =>
+        win := none
+        if ob.startsWith "ok" && wi == nat! i then
+          -- the subscriber is owed the snapshot, then everything emitted since the snapshot
+          obs := setObs obs wi (winQ.foldl Obs.emit (Obs.start bl))
+          if !ids.contains wi then ids := ids ++ [wi]
+        else if ob == "HANG" then out := out.push (fail "hang" "NewSubscription never returned after the backlog lookup completed")
+        if det && !diverged then
+          let (s1, o) := step st (.subscribe wi h bl)
+          -- the handler is free again: it takes the queued notifications one by one
+          let s2 := winQ.foldl (fun s _ => (step s .handlerFanout).1) s1
+          st := settle s2 ids
+          let m := match o with | .ok => s!"ok {h}" | .stopped => "stopped" | _ => "invalid"
+          if m != ob then
+            out := out.push (diff s!"model=<{m}>"); diverged := true
+        winQ := []
     | ["subfail", i, h] =>
       if det && !diverged then
         let (s', o) := step st (.subscribeFail (nat! i) (nat! h))
@@ -113,6 +147,14 @@ def runCase : CaseFn := fun c => Id.run do
       match parseNtfn w with
       | none => out := out.push (diff "unparsable notification")
       | some n =>
+        if ob == "queued" then
+          -- emitted while a registration is in progress: every registered subscriber is owed it
+          -- (Obs.emit), the one being registered is owed it after its backlog (winQ, see subend)
+          obs := obs.map (fun p => (p.1, p.2.emit n))
+          winQ := winQ ++ [n]
+          if win.isNone then out := out.push (diff "queued emit outside a registration window")
+          if det && !diverged then st := (step st (.emit n)).1
+          continue
         if ob == "ok" then obs := obs.map (fun p => (p.1, p.2.emit n))
         else if ob == "HANG" then out := out.push (fail "hang" "handler never took the notification")
         if det && !diverged then
